@@ -1,6 +1,8 @@
 import KV.Proofs.ValSetStep
 import KV.Proofs.ValSetUpdateMain
 import KV.Proofs.ValSetPath
+import KV.Proofs.ValSetRefine
+import KV.Proofs.ValSetResult
 /-!
 # C12 — Proposer rotation is the specified fair round-robin; set updates are well-formed
 
@@ -176,7 +178,8 @@ theorem update_atomic (vs : ValSet) (cs : List Validator) (d : Bool) :
     · intro hc; subst hc
       simp [updateWithChangeSet] at h; exact h.symm
 
-/-! ## statements not (yet) proved: kept at full strength -/
+/-! ## the full-strength statements (all proved below: `model_refines_spec`, `update_rejects_iff`,
+`update_result`, `update_never_panics`, `no_starvation`; `UpdatePermStatement` in `Props/C06.lean`) -/
 
 /-- well-formed set: distinct addresses, positive powers, total = sum ≤ cap -/
 def WF (vs : ValSet) : Prop :=
@@ -185,10 +188,8 @@ def WF (vs : ValSet) : Prop :=
 
 /-- `model_refines_spec`, `k`-independent form: from a well-formed set whose priorities are in
 `[-B, B]` and `2·n·max(B, T) + n + 2T < 2^62`, `IncrementProposerPriority(k)` equals
-`Spec.increment k` for **every** `k` (needs the invariants "the sum is constant" and "no priority
-falls below `min(prio₀, -T)`", hence the `n`-dependent upper bound).  Proved so far: each
-component (`rescale_centre_no_overflow_centre`, `window`/`rescale_no_panic`,
-`increment_no_overflow`, `rounds_refine_spec_partial` with a `k`-dependent bound). -/
+`Spec.increment k` for **every** `k` (uses the invariants "the sum is constant" and "no priority
+falls below `min(prio₀, 1 - T)`", hence the `n`-dependent upper bound).  Proved: `model_refines_spec`. -/
 def ModelRefinesSpecStatement : Prop :=
   ∀ (vs : ValSet) (k : Nat) (B : Int), WF vs → vs.vals ≠ [] → 0 < k → PrioBound B vs.vals →
     2 * (vs.vals.length : Int) * (max B vs.total) + vs.vals.length + 2 * vs.total < 2 ^ 62 →
@@ -198,7 +199,7 @@ def ModelRefinesSpecStatement : Prop :=
 /-- `update_rejects_iff`: on a well-formed set an update with deletions allowed fails iff the
 change list has a duplicate address, the zero address (code quirk), a negative power, a power
 above the cap, a removal of a non-member, would empty the set, or would push the total above the
-cap.  Tested exhaustively by the harness oracle (`update-rejection-rule`), not proved. -/
+cap.  Proved: `update_rejects_iff` (and checked on the real code by the oracle `update-rejection-rule`). -/
 def UpdateRejectsIffStatement : Prop :=
   ∀ (vs : ValSet) (cs : List Validator), WF vs → cs ≠ [] →
     ((∃ e, updateWithChangeSet vs cs true = .error e) ↔
@@ -213,7 +214,8 @@ def UpdatePermStatement : Prop :=
     (∀ vs', updateWithChangeSet vs cs true = .ok vs' → updateWithChangeSet vs cs' true = .ok vs') ∧
     ((∃ e, updateWithChangeSet vs cs true = .error e) → ∃ e, updateWithChangeSet vs cs' true = .error e)
 
-/-- `update_result`: membership and powers of the result are old ⊕ changes. -/
+/-- `update_result`: membership and powers of the result are old ⊕ changes, and the result is
+well-formed.  Proved: `update_result`. -/
 def UpdateResultStatement : Prop :=
   ∀ (vs vs' : ValSet) (cs : List Validator), WF vs → updateWithChangeSet vs cs true = .ok vs' → cs ≠ [] →
     WF vs' ∧ ∀ a p, (∃ v ∈ vs'.vals, v.addr = a ∧ v.power = p) ↔
@@ -223,7 +225,8 @@ def UpdateResultStatement : Prop :=
 /-- `no_starvation`: from a centred state inside the window `2T` (what an update leaves), a
 validator of an `n`-element set proposes within `(2·n·T + n) / power + 1` rounds.  Follows from
 `no_turn_gains_all` plus the a-priori bounds "no priority falls below `-2T`" and "the sum is
-constant" (not proved); checked by the harness oracle `starved-after-change`. -/
+constant" (`priority_bounds`, `priority_sum_constant`).  Proved: `no_starvation`; also checked on
+the real code by the harness oracle `starved-after-change`. -/
 def NoStarvationStatement : Prop :=
   ∀ (l : List Validator) (v : Validator) (k : Nat), (l.map (·.addr)).Nodup → v ∈ l → (∀ w ∈ l, 0 < w.power) →
     (0 ≤ sumPrio l ∧ sumPrio l < l.length) → (∀ a ∈ l, ∀ b ∈ l, a.prio - b.prio ≤ 2 * Spec.total l) →
@@ -308,9 +311,9 @@ theorem update_verification_phase (vs : ValSet) (cs : List Validator) (hwf : WF 
         (newTotal vs.vals cs + sumBy (fun c => oldPow vs.vals c.addr) (deletesOf (isort leAddr cs))) :=
   update_verified vs cs hne hwf.1 hwf.2.1 hwf.2.2.1 hwf.2.2.2 hvalid hknown
 
-/-- what is missing for the full `UpdateRejectsIffStatement`: after a successful verification the
-application phase never takes one of its panic branches (needs the characterisation of the merge
-`applyUpdates`/`applyRemovals`, i.e. the core of `UpdateResultStatement`). -/
+/-- the gap between `update_rejects_iff_partial` and `UpdateRejectsIffStatement`: after a successful
+verification the application phase never takes one of its panic branches (uses the characterisation
+of the merge `applyUpdates`/`applyRemovals`).  Proved: `update_never_panics`. -/
 def UpdateNeverPanicsStatement : Prop :=
   ∀ (vs : ValSet) (cs : List Validator), WF vs → updateWithChangeSet vs cs true ≠ .error .panic
 
@@ -345,6 +348,265 @@ theorem proposer_path_dependent_counterexample :
     (okOf (iterInc 4 pathWitness)).map (·.proposer) = some (some 3) ∧
     (okOf (iterInc 1 pathWitness)).map (fun s => maxMinDiff s.vals) = some 19 := by
   refine ⟨?_, ?_, ?_⟩ <;> decide
+
+/-! ## (8) a-priori invariants of the specification run; no starvation; proportional share -/
+
+/-- **the priority sum is constant**: in every round the proposer pays exactly the total that all
+validators together gain (distinct addresses, `T = Σ power`). -/
+theorem priority_sum_constant (l : List Validator) (k : Nat) (p : Option Nat) (hne : l ≠ [])
+    (hn : (l.map (·.addr)).Nodup) :
+    sumPrio (Spec.steps (Spec.total l) k l p).1 = sumPrio l :=
+  Spec.steps_sum (Spec.total l) k l p hne hn rfl
+
+/-- **a-priori priority bounds**: from a centred state inside the window `2T`, after any number of
+rounds every priority lies in `[−2T, n + 2(n−1)T)`: the proposer's priority after paying is at
+least `1 − T` (before paying it is the maximum, hence at least the positive average), nobody else
+loses anything, and the sum stays what it was. -/
+theorem priority_bounds (l : List Validator) (k : Nat) (p : Option Nat) (hn : (l.map (·.addr)).Nodup)
+    (hpos : ∀ w ∈ l, 0 < w.power) (hc : 0 ≤ sumPrio l ∧ sumPrio l < l.length)
+    (hw : ∀ a ∈ l, ∀ b ∈ l, a.prio - b.prio ≤ 2 * Spec.total l) :
+    ∀ v' ∈ (Spec.steps (Spec.total l) k l p).1,
+      -(2 * Spec.total l) ≤ v'.prio ∧
+      v'.prio ≤ 2 * (l.length : Int) * Spec.total l + l.length - 2 * Spec.total l - 1 := by
+  have hne : l ≠ [] := by intro e; rw [e] at hc; simp at hc; omega
+  have htpos := total_pos l hne hpos
+  have hb := centred_window_bound l (2 * Spec.total l) hc hw
+  have hinv : RunInv (Spec.total l) (fun _ => -(2 * Spec.total l)) l :=
+    RunInv.of_const _ _ l hne hn rfl (fun w hw' => Int.le_of_lt (hpos w hw')) htpos hc.1 (by omega)
+      (fun w hw' => (hb w hw').1)
+  obtain ⟨hk, hsum, hlen⟩ := Spec.steps_inv _ _ k l p hinv
+  intro v' hv'
+  have := hk.bounds _ _ _ (by omega) v' hv'
+  rw [hsum, hlen, Int.mul_left_comm, ← Int.mul_assoc] at this
+  omega
+
+/-- **no_starvation** (`NoStarvationStatement`): from a centred state inside the window `2T` (what
+an update leaves), a validator of an `n`-element set that has not proposed during `k` rounds
+satisfies `k · power ≤ 2·n·T + n`, i.e. it proposes within `(2·n·T + n)/power + 1` rounds. -/
+theorem no_starvation : NoStarvationStatement := by
+  intro l v k hn hv hpos hc hw h0
+  have hne : l ≠ [] := fun e => by rw [e] at hv; cases hv
+  obtain ⟨v', hm, _, hp⟩ := no_turn_gains_all (Spec.total l) k l none hne v hv h0
+  have hup := (priority_bounds l k none hn hpos hc hw v' hm).2
+  have hlo := (centred_window_bound l (2 * Spec.total l) hc hw v hv).1
+  omega
+
+/-- **proportional share** ("each validator proposes in proportion to its power"): over any `k`
+rounds from a centred state inside the window `2T`, the number of turns of `v` satisfies
+`1 − 3T ≤ k·power − T·turns ≤ 2·n·T + n − 1` — bounds that do not depend on `k`. -/
+theorem proportional_share (l : List Validator) (v : Validator) (k : Nat)
+    (hn : (l.map (·.addr)).Nodup) (hv : v ∈ l) (hpos : ∀ w ∈ l, 0 < w.power)
+    (hc : 0 ≤ sumPrio l ∧ sumPrio l < l.length)
+    (hw : ∀ a ∈ l, ∀ b ∈ l, a.prio - b.prio ≤ 2 * Spec.total l) :
+    1 - 3 * Spec.total l ≤
+      (k : Int) * v.power - Spec.total l * ((Spec.run (Spec.total l) k l).count v.addr : Int) ∧
+    (k : Int) * v.power - Spec.total l * ((Spec.run (Spec.total l) k l).count v.addr : Int) ≤
+      2 * (l.length : Int) * Spec.total l + l.length - 1 := by
+  have hne : l ≠ [] := fun e => by rw [e] at hv; cases hv
+  have htpos := total_pos l hne hpos
+  obtain ⟨v', hm, ha, _, hid⟩ := accounting_identity (Spec.total l) k l none hne v hv
+  have hup := (priority_bounds l k none hn hpos hc hw v' hm).2
+  obtain ⟨hlo, hhi⟩ := centred_window_bound l (2 * Spec.total l) hc hw v hv
+  have hself := Spec.steps_lower_self (Spec.total l) k l none hne hn rfl
+    (fun w hw' => Int.le_of_lt (hpos w hw')) htpos hc.1 v hv v' hm ha
+  omega
+
+/-- the same in quotient form: `⌊k·power/T⌋ − 3n ≤ turns ≤ ⌊k·power/T⌋ + 3` for every `k` -/
+theorem proportional_share_div (l : List Validator) (v : Validator) (k : Nat)
+    (hn : (l.map (·.addr)).Nodup) (hv : v ∈ l) (hpos : ∀ w ∈ l, 0 < w.power)
+    (hc : 0 ≤ sumPrio l ∧ sumPrio l < l.length)
+    (hw : ∀ a ∈ l, ∀ b ∈ l, a.prio - b.prio ≤ 2 * Spec.total l) :
+    (k : Int) * v.power / Spec.total l - 3 * (l.length : Int) ≤ ((Spec.run (Spec.total l) k l).count v.addr : Int) ∧
+    ((Spec.run (Spec.total l) k l).count v.addr : Int) ≤ (k : Int) * v.power / Spec.total l + 3 := by
+  have hne : l ≠ [] := fun e => by rw [e] at hv; cases hv
+  have htpos := total_pos l hne hpos
+  obtain ⟨h1, h2⟩ := proportional_share l v k hn hv hpos hc hw
+  have hnpos := length_pos_int l hne
+  generalize Spec.total l = T at *
+  generalize ((Spec.run T k l).count v.addr : Int) = t at *
+  generalize (k : Int) * v.power = x at *
+  have d1 := @Int.mul_ediv_self_le x T (by omega)
+  have d2 := @Int.lt_mul_ediv_self_add x T htpos
+  have hnT : (l.length : Int) * 1 ≤ (l.length : Int) * T := Int.mul_le_mul_of_nonneg_left (by omega) (by omega)
+  rw [Int.mul_one] at hnT
+  rw [Int.mul_assoc] at h2
+  constructor
+  · have : T * (x / T - 3 * (l.length : Int) ) < T * (t + 1) := by
+      have e3 : T * (3 * (l.length : Int)) = 3 * ((l.length : Int) * T) := by
+        rw [Int.mul_left_comm, Int.mul_comm T]
+      rw [Int.mul_sub, Int.mul_add, Int.mul_one, e3]; omega
+    have := Int.lt_of_mul_lt_mul_left this (by omega)
+    omega
+  · have : T * t < T * (x / T + 4) := by
+      rw [Int.mul_add]; omega
+    have := Int.lt_of_mul_lt_mul_left this (by omega)
+    omega
+
+/-! ## (4b) the model is the specification for every number of rounds -/
+
+/-- **model_refines_spec** (`ModelRefinesSpecStatement`, `k`-independent): on a well-formed
+non-empty set with priorities in `[−B, B]` and `2·n·max(B, T) + n + 2T < 2^62`,
+`IncrementProposerPriority(k)` equals the unbounded `Spec.increment k` for **every** `k ≥ 1` — no
+`int64` operation wraps or clips, however many rounds are run. -/
+theorem model_refines_spec : ModelRefinesSpecStatement := by
+  intro vs k B hwf hne hk hb hfit
+  exact increment_refines_spec vs k B hwf.1 hwf.2.1 hwf.2.2.1 hne hk hb hfit
+
+/-- the same with the two range conditions separated (sharper): the normalisation needs
+`2B + 2T < 2^63`, the rounds need `n + 2·n·T + 2T < 2^63` — independent of `B` and of `k`. -/
+theorem model_refines_spec_sharp (vs : ValSet) (k : Nat) (B : Int) (hwf : WF vs) (hne : vs.vals ≠ [])
+    (hk : 0 < k) (hb : PrioBound B vs.vals) (hfitB : 2 * B + 2 * vs.total ≤ maxI64)
+    (hfit : (vs.vals.length : Int) + 2 * ((vs.vals.length : Int) * vs.total) + 2 * vs.total ≤ maxI64) :
+    increment vs k = .ok { vals := (Spec.increment vs.vals k).1,
+                           proposer := (Spec.increment vs.vals k).2, total := vs.total } :=
+  increment_refines_spec_sharp vs k B hwf.1 hwf.2.1 hwf.2.2.1 hne hk hb hfitB hfit
+
+/-- `RescalePriorities(D)` is the specification's rescale (no wrap in `diff + D − 1`, in the ratio or
+in the divisions) under the side conditions of `window` -/
+theorem rescale_refines_spec (D : Int) (l : List Validator) (h : RescaleOK D l) :
+    rescaleList D l = Spec.rescale D l := rescaleList_eq_spec D l h
+
+/-- the division by zero in `RescalePriorities` is unreachable for **every** list (any priorities,
+in range or not) as long as `D ≤ 2^62` (`D = 2·T ≤ 2·cap < 2^61` in both callers): if `diff + D − 1`
+wraps, its absolute value is still at least `D`. -/
+theorem rescale_division_by_zero_unreachable (D : Int) (l : List Validator)
+    (hD : D ≤ 4611686018427387904) : rescalePanics D l = false := rescalePanics_false D l hD
+
+/-! ## (5c) the result of an update -/
+
+/-- **update_never_panics** (`UpdateNeverPanicsStatement`): on a well-formed set no panic branch of
+`updateWithChangeSet` is reachable (`updateTotalVotingPower` above the cap, more removals than
+validators, out-of-range removal, empty result, division by zero in the rescale). -/
+theorem update_never_panics : UpdateNeverPanicsStatement := by
+  intro vs cs hwf
+  exact update_never_panics_core vs cs hwf.1 hwf.2.1 hwf.2.2.1 hwf.2.2.2
+
+/-- **update_rejects_iff** (`UpdateRejectsIffStatement`, full): on a well-formed set an update fails
+iff the change list has a duplicate address, the zero address (code quirk), a negative power, a
+power above the cap, removes a non-member, would empty the set, or pushes the total above the cap. -/
+theorem update_rejects_iff : UpdateRejectsIffStatement := by
+  intro vs cs hwf hne
+  rw [← update_rejects_iff_partial vs cs hwf hne]
+  constructor
+  · rintro ⟨e, he⟩
+    refine ⟨e, ?_, he⟩
+    intro hp; rw [hp] at he
+    exact update_never_panics vs cs hwf he
+  · rintro ⟨e, _, he⟩; exact ⟨e, he⟩
+
+/-- **update_result** (`UpdateResultStatement`): a successful update of a well-formed set yields a
+well-formed set (distinct addresses, positive powers, cached total = Σ power ≤ cap) whose
+(address, power) pairs are exactly: the changes with positive power, plus the old validators the
+change list does not mention. -/
+theorem update_result : UpdateResultStatement := by
+  intro vs vs' cs hwf hok hne
+  obtain ⟨hctx, _, hcap, hTpos, rfl⟩ :=
+    update_ok_form vs vs' cs hne hwf.1 hwf.2.1 hwf.2.2.1 hwf.2.2.2 hok
+  have hperm := preNorm_perm vs.vals cs hctx
+  refine ⟨⟨?_, ?_, ?_, hcap⟩, ?_⟩
+  · exact (final_addr _ _).nodup_iff.mpr hperm.2.nodup
+  · intro x hx
+    obtain ⟨y, hy, _, hyp⟩ := (final_ap (2 * newTotal vs.vals cs) (preNorm vs.vals cs) x.addr x.power).mp
+      ⟨x, hx, rfl, rfl⟩
+    rw [← hyp]; exact preNorm_pos vs.vals cs hctx y hy
+  · show newTotal vs.vals cs = Spec.total _
+    unfold Spec.total
+    rw [int_sum_perm (final_power _ _)]
+    exact (preNorm_total vs.vals cs hctx).symm
+  · intro a p
+    rw [final_ap, preNorm_ap vs.vals cs hctx]
+
+/-- **newcomer_priority**: in a successful update of a well-formed set the result is the rescaled,
+centred and power-sorted `preNorm` list, in which every validator added by the change list carries
+the priority `−(U + U/8)` (integer division, `−1.125·U`), where `U` is the total voting power
+**after the updates and before the removals** of the same change list: `U = new total + removed
+power`; without removals in the change list `U` is the new total.  A validator whose power is
+changed keeps its priority. -/
+theorem newcomer_priority (vs vs' : ValSet) (cs : List Validator) (hwf : WF vs)
+    (hok : updateWithChangeSet vs cs true = .ok vs') (c : Validator) (hc : c ∈ cs) (hp : 0 < c.power) :
+    vs'.vals = isort lePower (shiftList (rescaleList (2 * vs'.total) (preNorm vs.vals cs))) ∧
+    (findVal vs.vals c.addr = none →
+      (⟨c.addr, c.power, -((vs'.total + removedPower vs.vals cs) + (vs'.total + removedPower vs.vals cs) / 8)⟩ : Validator)
+        ∈ preNorm vs.vals cs) ∧
+    (∀ o, findVal vs.vals c.addr = some o → (⟨c.addr, c.power, o.prio⟩ : Validator) ∈ preNorm vs.vals cs) ∧
+    0 ≤ removedPower vs.vals cs ∧ ((∀ d ∈ cs, d.power ≠ 0) → removedPower vs.vals cs = 0) := by
+  have hne : cs ≠ [] := fun e => by rw [e] at hc; cases hc
+  obtain ⟨hctx, _, hcap, hTpos, rfl⟩ :=
+    update_ok_form vs vs' cs hne hwf.1 hwf.2.1 hwf.2.2.1 hwf.2.2.2 hok
+  obtain ⟨h1, h2⟩ := preNorm_priorities vs.vals cs hctx c hc (by omega)
+  obtain ⟨r0, r1⟩ := removedPower_bounds vs.vals cs hctx
+  have hT := hwf.2.2.1
+  have hcap0 := hwf.2.2.2
+  refine ⟨rfl, ?_, h2, r0, removedPower_zero vs.vals cs⟩
+  intro hf
+  have := h1 hf
+  rw [totalBeforeRemovals_eq, newcomerPrio_exact _ (by omega) (by omega)] at this
+  exact this
+
+/-- **update_no_overflow**: in a successful update of a well-formed set whose priorities are in
+`[−B, B]` (`2.25·cap ≤ B`, `2B + 2·cap < 2^63`; e.g. `B = 3·2^60`), the final rescale and centring
+are the specification's — no `int64` operation wraps or clips — and the new set is centred with all
+priorities in the window: `|prio| ≤ 2T'`, any two differ by at most `2T'`. -/
+theorem update_no_overflow (vs vs' : ValSet) (cs : List Validator) (B : Int) (hwf : WF vs) (hne : cs ≠ [])
+    (hok : updateWithChangeSet vs cs true = .ok vs') (hb : PrioBound B vs.vals)
+    (hB : 9 * cap ≤ 4 * B) (hB2 : 2 * B + 2 * cap ≤ maxI64) :
+    vs'.vals = isort lePower (Spec.centre (Spec.rescale (2 * vs'.total) (preNorm vs.vals cs))) ∧
+    (0 ≤ sumPrio vs'.vals ∧ sumPrio vs'.vals < vs'.vals.length) ∧
+    (∀ a ∈ vs'.vals, ∀ b ∈ vs'.vals, a.prio - b.prio ≤ 2 * vs'.total) ∧
+    (∀ a ∈ vs'.vals, -(2 * vs'.total) ≤ a.prio ∧ a.prio ≤ 2 * vs'.total) := by
+  obtain ⟨hctx, he, hcap, _, rfl⟩ :=
+    update_ok_form vs vs' cs hne hwf.1 hwf.2.1 hwf.2.2.1 hwf.2.2.2 hok
+  have hT := hwf.2.2.1
+  have hcap0 := hwf.2.2.2
+  exact update_normal_form vs.vals cs hctx he B hb (by omega) hcap hB hB2
+
+/-- **none is starved after a set change**: in the set left by a successful update (hypotheses of
+`update_no_overflow`), a validator that has not proposed during `k` specification rounds satisfies
+`k · power ≤ 2·n·T' + n`. -/
+theorem no_starvation_after_update (vs vs' : ValSet) (cs : List Validator) (B : Int) (hwf : WF vs)
+    (hne : cs ≠ []) (hok : updateWithChangeSet vs cs true = .ok vs') (hb : PrioBound B vs.vals)
+    (hB : 9 * cap ≤ 4 * B) (hB2 : 2 * B + 2 * cap ≤ maxI64) (x : Validator) (hx : x ∈ vs'.vals) (k : Nat)
+    (h0 : (Spec.run vs'.total k vs'.vals).count x.addr = 0) :
+    (k : Int) * x.power ≤ 2 * (vs'.vals.length : Int) * vs'.total + vs'.vals.length := by
+  obtain ⟨hwf', _⟩ := update_result vs vs' cs hwf hok hne
+  obtain ⟨_, hc, hw, _⟩ := update_no_overflow vs vs' cs B hwf hne hok hb hB hB2
+  have hT := hwf'.2.2.1
+  rw [hT] at hw h0 ⊢
+  exact no_starvation vs'.vals x k hwf'.1 hx hwf'.2.1 hc hw h0
+
+/-! ## (7b) the path dependence is reachable through the node's own call sequence -/
+
+/-- sequencing of model calls -/
+def andThen {α β} (x : Except Err α) (f : α → Except Err β) : Except Err β :=
+  match x with
+  | .ok a => f a
+  | .error e => .error e
+
+/-- `MakeGenesisState`: `NextValidators = NewValidatorSet(genesis).CopyIncrementProposerPriority(1)`
+for the genesis validators `{1: 2, 2: 6, 3: 10}` -/
+def reachNext1 : Except Err ValSet :=
+  andThen (newValidatorSet [v 1 2 0, v 2 6 0, v 3 10 0]) (increment · 1)
+
+/-- `updateState` after block 1, whose validator updates remove validator 2 and add validator 4 with
+power 1: `Copy`, `UpdateWithChangeSet`, `IncrementProposerPriority(1)`.  Two heights later this set
+is `cs.Validators`. -/
+def reachV : Except Err ValSet :=
+  andThen (andThen reachNext1 (updateWithChangeSet · [v 2 0 0, v 4 1 0] true)) (increment · 1)
+
+/-- **the path dependence is reachable** (answer to the reachability question; replayed on the real
+code).  The set `reachV` is produced by exactly the calls a node makes (`NewValidatorSet`,
+`CopyIncrementProposerPriority(1)`, then per committed block `UpdateWithChangeSet` +
+`IncrementProposerPriority(1)`): powers (10, 2, 1), priorities (4, 11, −15), `T = 13`, spread
+`26 = 2T`.  After the first round of that height the priorities are (1, 13, −14): spread
+`27 > 2T`.  A node that enters round 1 and then round 2 (`IncrementProposerPriority(1)` twice)
+rescales before the second round and computes proposer **3** for round 2; a node that skips from
+round 0 to round 2 (`IncrementProposerPriority(2)`) does not rescale and computes proposer **1**. -/
+theorem proposer_path_dependent_reachable :
+    okOf reachV = some { vals := [v 3 10 4, v 1 2 11, v 4 1 (-15)], proposer := some 3, total := 13 } ∧
+    (okOf (andThen reachV (iterInc 1))).map (fun s => (maxMinDiff s.vals, s.proposer)) = some (27, some 3) ∧
+    (okOf (andThen reachV (increment · 2))).map (·.proposer) = some (some 1) ∧
+    (okOf (andThen reachV (iterInc 2))).map (·.proposer) = some (some 3) := by
+  refine ⟨?_, ?_, ?_, ?_⟩ <;> decide
 
 /-! ## non-vacuity and the F1 witness -/
 
@@ -384,5 +646,44 @@ example : errOf (updateWithChangeSet emptySet [v 1 (cap + 1) 0] true) = some .ca
 example : errOf (updateWithChangeSet emptySet [v 1 0 0] true) = some .unknown := by decide
 example : errOf (updateWithChangeSet emptySet [v 1 cap 0, v 2 1 0] true) = some .overflow := by decide
 example : errOf (updateWithChangeSet emptySet [v 1 0 0] false) = some .zeroPower := by decide
+
+/-- the hypotheses of `priority_bounds` / `no_starvation` / `proportional_share` are satisfiable
+(distinct addresses, positive powers, centred, inside the window `2T = 4`), and the bound is met
+with equality-order values: in 7 rounds validator 1 (power 1 of `T = 2`) proposes 3 times -/
+example : ((([v 1 1 (-1), v 2 1 1] : List Validator).map (·.addr)).Nodup) ∧
+    (∀ w ∈ ([v 1 1 (-1), v 2 1 1] : List Validator), 0 < w.power) ∧
+    (0 ≤ sumPrio [v 1 1 (-1), v 2 1 1] ∧ sumPrio [v 1 1 (-1), v 2 1 1] < 2) ∧
+    (∀ a ∈ ([v 1 1 (-1), v 2 1 1] : List Validator), ∀ b ∈ ([v 1 1 (-1), v 2 1 1] : List Validator),
+      a.prio - b.prio ≤ 2 * Spec.total [v 1 1 (-1), v 2 1 1]) ∧
+    (Spec.run (Spec.total [v 1 1 (-1), v 2 1 1]) 7 [v 1 1 (-1), v 2 1 1]).count 1 = 3 := by
+  refine ⟨by decide, ?_, by decide, ?_, by decide⟩
+  · intro w hw; simp [v] at hw; rcases hw with rfl | rfl <;> decide
+  · intro a ha b hb; simp [v] at ha hb
+    rcases ha with rfl | rfl <;> rcases hb with rfl | rfl <;> decide
+/-- the hypotheses of `model_refines_spec` are satisfiable -/
+example : WF { vals := [v 1 1 (-1), v 2 1 1], proposer := none, total := 2 } ∧
+    PrioBound 1 [v 1 1 (-1), v 2 1 1] ∧
+    2 * (2 : Int) * (max 1 2) + 2 + 2 * 2 < 2 ^ 62 := by
+  refine ⟨⟨by decide, ?_, by decide, by decide⟩, ?_, by decide⟩
+  · intro w hw; simp [v] at hw; rcases hw with rfl | rfl <;> decide
+  · intro x hx; simp [v] at hx; rcases hx with rfl | rfl <;> decide
+/-- a successful update of a well-formed set (hypotheses of `update_result` / `newcomer_priority`):
+`{1: 10, 2: 10}`, change list "remove 2, add 3 with power 1".  The newcomer's priority is computed
+from `U = 21` (the total before the removal), not from the new total 11: `−(21 + 21/8) = −23`
+(from the new total it would be `−12`); confirmed on the real code. -/
+example : WF { vals := [v 1 10 (-10), v 2 10 10], proposer := some 1, total := 20 } ∧
+    preNorm [v 1 10 (-10), v 2 10 10] [v 2 0 0, v 3 1 0] = [v 1 10 (-10), v 3 1 (-23)] ∧
+    removedPower [v 1 10 (-10), v 2 10 10] [v 2 0 0, v 3 1 0] = 10 ∧
+    okOf (updateWithChangeSet { vals := [v 1 10 (-10), v 2 10 10], proposer := some 1, total := 20 }
+      [v 2 0 0, v 3 1 0] true) =
+      some { vals := [v 1 10 7, v 3 1 (-6)], proposer := some 1, total := 11 } := by
+  refine ⟨⟨by decide, ?_, by decide, by decide⟩, by decide, by decide, by decide⟩
+  intro w hw; simp [v] at hw; rcases hw with rfl | rfl <;> decide
+
+/-- the range hypotheses of `update_no_overflow` are satisfiable: `B = 3·2^60` -/
+example : 9 * cap ≤ 4 * (3 * 2 ^ 60 : Int) ∧ 2 * (3 * 2 ^ 60 : Int) + 2 * cap ≤ maxI64 ∧
+    PrioBound (3 * 2 ^ 60) [v 1 10 (-10), v 2 10 10] := by
+  refine ⟨by decide, by decide, ?_⟩
+  intro x hx; simp [v] at hx; rcases hx with rfl | rfl <;> decide
 
 end KV.ValSet
